@@ -95,6 +95,22 @@ def determinism_L(seed):
         end = next((i for i in range(k + 1, len(req)) if req[i].startswith("reset")), len(req))
         res["detail"] = f"{a[k][:200]} vs {b[k][:200]}"
         res["requests"] = req[start:end]
+    # the same history driven twice in a row in one process (fresh builder, freshly allocated strings): same answers
+    d = os.path.join(WORK, "det2")
+    rc, out, err = sh([harness_bin("chan_l"), "twice", str(seed * 17 + 3), "2500", d], timeout=600)
+    if rc == 0:
+        req2 = open(os.path.join(d, "req.txt")).read().split("\n")
+        imp2 = open(os.path.join(d, "impl.txt")).read().split("\n")
+        starts = [i for i, r in enumerate(req2) if r.startswith("reset")] + [len(req2)]
+        res["in_process_pairs"] = (len(starts) - 1) // 2
+        for k in range(0, len(starts) - 2, 2):
+            h1 = imp2[starts[k]:starts[k + 1]]; h2 = imp2[starts[k + 1]:starts[k + 2]]
+            if h1 != h2 and req2[starts[k]:starts[k + 1]] == req2[starts[k + 1]:starts[k + 2]] and not res["differs"]:
+                j = next((i for i in range(min(len(h1), len(h2))) if h1[i] != h2[i]), 0)
+                res["differs"] = True
+                res["detail"] = "in one process, the second run of the same history answered differently: " + f"{h1[j][:200]} vs {h2[j][:200]}"
+                res["requests"] = req2[starts[k]:starts[k + 1]]
+                break
     return res
 
 
@@ -115,6 +131,14 @@ def t_side(prop, seed, tier):
 def decide_T(prop, tier, seed, t0, replay):
     pr = proof_side(prop, tier)
     oracle, disagree, info, an = t_side(prop, seed, tier)
+    # the names the builder's entry points record (channel L): canonical whatever the caller's spelling
+    ok_l, _ = cargo_build(["chan_l"])
+    l_hits = []
+    if ok_l and not replay:
+        linfo = chan_l.run(seed, tier)
+        lan = chan_l.analyse(linfo["dirs"], prop)
+        l_hits = [o for o in lan["oracle"] if o["property"] == prop]
+        oracle = oracle + [{"property": prop, "message": o["message"] + "\n# history:\n# " + "\n# ".join(o.get("requests", [])[:40])} for o in l_hits[:50]]
     proof_ok = not pr["problems"]
     tie_ok = an["n_disagree"] == 0 and not info["errors"]
     rc = 0; violations = 0; lines = []
@@ -520,6 +544,10 @@ def decide_L(prop, tier, seed, t0, replay):
             an["n_disagree"] = an.get("n_disagree", 0) + 1
             an["disagreements"].append({"dir": "", "history": 0, "line": 0, "request": "lab build", "impl": "lab does not compile: " + str(xinfo["errors"][:1])[:600], "model": "compiles", "requests": []})
         an["modules_compiled"] = {"modules": xan["modules"], "builds": {k: b.get("compiled") for k, b in xinfo.get("builds", {}).items()}}
+    if prop == "C13" and not replay:
+        t_or, _, _, _ = t_side("C13", seed, tier)
+        for o in t_or:
+            oracle.append({"property": "C13", "message": o["message"], "requests": ["# channel T (rustc probe of the recorded type names)"]})
     if prop == "C18" and not replay:
         t_or, t_dis, t_info, t_an = t_side("C18", seed, tier)
         for o in t_or:
